@@ -1,7 +1,7 @@
 //! C06: time limiter.
 //! script = [cancel, dyn, n, T, t_0..t_{n-1}, (op a b)*]
 //!   cancel 1 = cancel_running_future(true); dyn 0 = timeout_duration(T ms), 1 = timeout_fn(i -> t_i ms)
-//!   op 1 Poll a (b ignored: tie-break oracle for the model) | 2 Drop a | 3 Advance a ms |
+//!   op 1 Poll a | 2 Drop a | 3 Advance a ms |
 //!      4 Complete a b (0 ok, 1 err, 2 panic) | 5 Call a (build the future now)
 //! trace per event = [r, val, wake mask, inner-call states base 4]
 use std::future::Future;
